@@ -69,6 +69,10 @@ def replay(mod, path: str) -> int:
     with open(path, encoding="utf-8") as f:
         body = json.load(f)
     case = body["case"]
+    from . import seam
+
+    seam.install()
+    seam.install_audit()
     res = mod.run_case(case)
     want_sig = body.get("signature")
     hit = [v for v in res["violations"] if want_sig is None or v["signature"] == want_sig]
